@@ -43,7 +43,24 @@ const (
 	stratMulti = "/localhost/nfd/strategy/multicast/v=1"
 )
 
+// lookAlike merges two neighbouring components of a name into one component whose value spells out the boundary
+// as a hash that runs over "type, value, type, value" would see it (8-byte type 8 between the two values): a
+// different name - one component fewer - that any table keyed by such a hash alone takes for the original.
+func lookAlike(r *kit.Rand, n string) string {
+	cs := strings.Split(strings.TrimPrefix(n, "/"), "/")
+	if len(cs) < 2 {
+		return n
+	}
+	i := r.Intn(len(cs) - 1)
+	merged := cs[i] + "%00%00%00%00%00%00%00%08" + cs[i+1]
+	out := append(append(append([]string{}, cs[:i]...), merged), cs[i+2:]...)
+	return "/" + strings.Join(out, "/")
+}
+
 func genName(r *kit.Rand, maxDepth int, pool []string) string {
+	if len(pool) > 0 && r.Chance(0.04) {
+		return lookAlike(r, kit.Pick(r, pool))
+	}
 	// reuse an existing name, a prefix or extension of one, or make a fresh one
 	if len(pool) > 0 && r.Chance(0.6) {
 		n := kit.Pick(r, pool)
